@@ -40,6 +40,33 @@
 (* The replay of THIS module re-reads the parameters / buffers of the      *)
 (* original kernel object after every case as well (checks/c06.py purity). *)
 (*                                                                         *)
+(* DATA LATTICE.  In every family but "geo" the rows of x1 / x2 carry      *)
+(* pairwise distinct labels (Iota): the most discriminating data for the   *)
+(* index algebra.  The relations of the property (diag = diagonal,         *)
+(* transposition, lazy = eager, blocks of stacked inputs, row / column     *)
+(* slices) quantify over the input POINTS as well, and the points that     *)
+(* decide them are not generic: a row can be the ORIGIN of the input       *)
+(* space, a UNIT point (on the unit sphere / a one-hot row: the boundary   *)
+(* of a ball-shaped domain), a LATTICE point of the kernel's own           *)
+(* resonance structure (a period multiple of another row, an exact grid    *)
+(* node, an inducing point, the antipode), two rows of an input can be the *)
+(* SAME point (coincident), and a row of x1 can be a row of x2 (shared).   *)
+(* A geometry (family "geo", CONSTANT Geos) assigns a point id to every    *)
+(* row; PointClass gives the class of an id, equality of ids is identity   *)
+(* of points.  The label of a row is its point (per batch element), so     *)
+(* coincident / shared rows carry EQUAL labels.  GeoCover states that the  *)
+(* enumerated geometries put every class into x1 and into x2, contain      *)
+(* coincident and shared rows and an x2 = cat(new rows, x1) (a sub-block   *)
+(* of kernel(x1, x2) with equal inputs); the relations are actions (Rel,   *)
+(* Op("transpose"), Index on rows / columns / the whole tensor) and Agree  *)
+(* is checked on them like on every other operation.  The replay           *)
+(* realises the point classes in the input space of EVERY zoo kernel       *)
+(* (checks/c06_kernels.py geo_inputs) and evaluates every zoo relation on  *)
+(* every (broadcast pattern, geometry) TLC enumerates.  In the other       *)
+(* families the REAL data follows DataGeo (distinct points, the origin and *)
+(* the unit point, the last rows of x1 are the first rows of x2), the stub *)
+(* keeps Iota.                                                             *)
+(*                                                                         *)
 (* PROPERTIES.  Agree: the label tensor the code produces is the           *)
 (* declarative one, for every operation valid for the shape.  The model    *)
 (* violates it; TLC's counterexamples are predictions which the replay     *)
@@ -76,13 +103,15 @@ CONSTANTS N1, N2,        \* rows of x1, x2
                          \* (Additive/Product expand_batch, IndexKernel diag, MultitaskKernel active_dims, the diag heuristic of
                          \* Kernel.__call__) that this module does not model - they are decided by the zoo relations only
           Jobs,          \* set of << <<param batch shape, x1 batch shape, x2 batch shape>>, family of operations >> enumerated by this run
+          Geos,          \* family "geo": the data geometries enumerated by this run, each << point ids of the N1 rows of x1, point ids of
+                         \* the N2 rows of x2 >> (see "the data lattice" below)
           MaxSteps,      \* chain length (1 = single operations)
           Pad,           \* how far slice bounds reach beyond the axis (rs / cs families)
           NChunks,       \* the index expressions of a (pattern, family) are split over this many initial states (parallelism)
           ChunkSet       \* the chunks this run explores (a subset of 0..NChunks-1; the others belong to parallel runs)
 
-VARIABLES pat, fam, chunk, cur, steps, hist
-vars == <<pat, fam, chunk, cur, steps, hist>>
+VARIABLES pat, fam, chunk, geo, cur, steps, hist
+vars == <<pat, fam, chunk, geo, cur, steps, hist>>
 
 \* ---- items ------------------------------------------------------------------------------------
 Sl(a, b, s) == [k |-> "slice", a |-> a, b |-> b, s |-> s]
@@ -170,6 +199,17 @@ TDiagLast(X) ==
      ELSE IF X.shape[r - 1] # X.shape[r] THEN Err
      ELSE LET n == X.shape[r]
           IN Tn(SubSeq(X.shape, 1, r - 1), [p \in 1..(Prod(X.shape) \div Max(n, 1)) |-> X.data[((p - 1) \div n) * n * n + ((p - 1) % n) * (n + 1) + 1]])
+
+\* torch.cat([X, Y], -2) of two tensors of shape b \o <<n, f>>, b \o <<m, f>>
+TCatRows(X, Y) ==
+  LET r == Len(X.shape)
+  IN IF X.err \/ Y.err \/ r < 2 \/ Len(Y.shape) # r THEN Err
+     ELSE IF BatchOf(X.shape) # BatchOf(Y.shape) \/ X.shape[r] # Y.shape[r] THEN Err
+     ELSE LET n == X.shape[r - 1] m == Y.shape[r - 1] f == X.shape[r]
+          IN Tn(BatchOf(X.shape) \o <<n + m, f>>,
+                [p \in 1..(Prod(BatchOf(X.shape)) * (n + m) * f) |->
+                   LET q == (p - 1) \div ((n + m) * f) w == (p - 1) % ((n + m) * f)
+                   IN IF w < n * f THEN X.data[q * n * f + w + 1] ELSE Y.data[q * m * f + (w - n * f) + 1]])
 
 MapT(X, F(_)) == IF X.err THEN Err ELSE Tn(X.shape, [p \in DOMAIN X.data |-> F(X.data[p])])
 
@@ -544,20 +584,56 @@ OpClass(L) ==
   ELSE IF BatchOf(L.x1.shape) # BatchOf(L.x2.shape) THEN "x1-x2-batch-differ"
   ELSE "none"
 
+\* ---- the data lattice: geometry of the input rows ---------------------------------------------------------------
+\* Point ids and their classes.  Two rows with the same id are the same point.
+PointIds == 0..4
+PointClass(id) == CASE id = 0 -> "origin"       \* every coordinate 0 (the centre of a ball-shaped domain, the zero vector of a dot product; the first word of a one-hot vocabulary)
+                    [] id = 1 -> "unit"         \* a point of norm exactly 1 / a one-hot row (the boundary of the unit ball)
+                    [] id = 2 -> "lattice"      \* kernel specific: generic point 3 moved by whole periods / an exact grid node / an inducing point /
+                                                \* the boundary of the support around point 3 / the antipode of point 3
+                    [] OTHER  -> "generic"      \* ids 3, 4
+SpecialClasses == {"origin", "unit", "lattice"}
+AllGeos(n1, n2) == {<<a, b>> : a \in [1..n1 -> PointIds], b \in [1..n2 -> PointIds]}
+
+\* the label of a point in batch element b (flat, 0-based): the origin is the same point everywhere, every other point is
+\* realised per batch element (so that no two batch elements of the data are exchangeable)
+PointLab(id, b) == IF id = 0 THEN 0 ELSE id + 8 * b
+\* x of batch shape bsh with the rows r: batch element b holds r rotated by b positions (the special rows do not sit at the same
+\* position in every batch element)
+GeoX(bsh, r) == LET n == Len(r)
+                IN Tn(bsh \o <<n, 1>>, [q \in 1..(Prod(bsh) * n) |-> LET b == (q - 1) \div n i == (q - 1) % n IN PointLab(r[((i + b) % n) + 1], b)])
+
+\* what a geometry exhibits
+GeoFeatures(g) ==
+  {<<"x1", PointClass(g[1][i])>> : i \in DOMAIN g[1]} \cup {<<"x2", PointClass(g[2][j])>> : j \in DOMAIN g[2]}
+  \cup {<<"coincident", "x1">> : i \in {i \in DOMAIN g[1] : \E i2 \in DOMAIN g[1] : i2 # i /\ g[1][i2] = g[1][i]}}
+  \cup {<<"coincident", "x2">> : j \in {j \in DOMAIN g[2] : \E j2 \in DOMAIN g[2] : j2 # j /\ g[2][j2] = g[2][j]}}
+  \cup {<<"shared", IF PointClass(g[1][i]) = "generic" THEN "generic" ELSE "special">> : i \in {i \in DOMAIN g[1] : \E j \in DOMAIN g[2] : g[2][j] = g[1][i]}}
+  \* x2 = cat(new rows, x1): the block K[..., :, o*T:] of kernel(x1, x2) is kernel(x1, x1) - a sub-block with EQUAL inputs (distinct points)
+  \cup {<<"block", "x1-in-x2">> : o \in {o \in 1..(Len(g[2]) - Len(g[1])) : (\A i \in DOMAIN g[1] : g[2][o + i] = g[1][i])
+                                                                            /\ (\A i, i2 \in DOMAIN g[1] : i # i2 => g[1][i] # g[1][i2])}}
+RequiredFeatures == {<<w, c>> : w \in {"x1", "x2"}, c \in SpecialClasses \cup {"generic"}}
+                      \cup {<<"coincident", "x1">>, <<"coincident", "x2">>, <<"shared", "generic">>, <<"shared", "special">>, <<"block", "x1-in-x2">>}
+\* the geometry of the REAL data in the families whose stub rows are labelled with Iota: pairwise distinct points inside an input,
+\* the origin and the unit point present (the lattice point where N2 = 3), the last rows of x1 are the first rows of x2 (N1, N2 <= 3)
+DataGeo == <<SubSeq(<<0, 3, 1>>, 1, N1), SubSeq(<<3, 1, 2>>, 1, N2)>>
+
 \* ---- the machine ------------------------------------------------------------------------------------------------
-Start(p) == MkLazy(Iota(p[2] \o <<N1, 1>>, 0), Iota(p[3] \o <<N2, 1>>, 0), MkKernel(p[1]))
+Start(p, f, g) == IF f = "geo" THEN MkLazy(GeoX(p[2], g[1]), GeoX(p[3], g[2]), MkKernel(p[1]))
+                  ELSE MkLazy(Iota(p[2] \o <<N1, 1>>, 0), Iota(p[3] \o <<N2, 1>>, 0), MkKernel(p[1]))
 
 NoTensor == [shape |-> <<>>, data |-> <<>>, err |-> FALSE]
 Obj(L, den, isden) == [L |-> L, den |-> den, isden |-> isden]
 
-\* dense value of the initial lazy tensor of every pattern (a constant: TLC evaluates it once)
-Patterns == {j[1] : j \in Jobs}
-D0F == [p \in Patterns |-> Dense(Start(p))]
-d0 == D0F[pat]
+\* dense value of the initial lazy tensor of every (pattern, family, geometry) (a constant: TLC evaluates it once)
+GeoOf(f) == IF f = "geo" THEN Geos ELSE {DataGeo}
+StartKeys == UNION {{<<j[1], j[2], g>> : g \in GeoOf(j[2])} : j \in Jobs}
+D0F == [key \in StartKeys |-> Dense(Start(key[1], key[2], key[3]))]
+d0 == D0F[<<pat, fam, geo>>]
 
-Init == /\ \E j \in Jobs : pat = j[1] /\ fam = j[2]
+Init == /\ \E j \in Jobs : pat = j[1] /\ fam = j[2] /\ geo \in GeoOf(j[2])
         /\ chunk \in ChunkSet
-        /\ cur = Obj(Start(pat), NoTensor, FALSE)
+        /\ cur = Obj(Start(pat, fam, geo), NoTensor, FALSE)
         /\ steps = 0 /\ hist = <<>>
 
 \* the declarative value of the object before this step
@@ -577,7 +653,7 @@ Index(idx) ==
          ls == IF r.isden \/ m.err THEN m.shape ELSE LKSize(r.L)
      IN /\ cur' = Obj(r.L, IF r.isden THEN m ELSE IF m.err THEN Err ELSE NoTensor, r.isden)
         /\ hist' = Append(hist, Record("getitem", idx, <<>>, e, m, ls, r.br, r.path, IF cur.isden THEN "none" ELSE StepClass(cur.L, idx)))
-  /\ steps' = steps + 1 /\ UNCHANGED <<pat, fam, chunk>>
+  /\ steps' = steps + 1 /\ UNCHANGED <<pat, fam, chunk, geo>>
 
 \* transposition, unsqueeze, repeat, diagonal of the initial lazy tensor
 Op(op, arg) ==
@@ -595,7 +671,7 @@ Op(op, arg) ==
          ls == IF op = "diagonal" \/ m.err THEN m.shape ELSE LKSize(r)
      IN /\ cur' = Obj(r, IF op = "diagonal" THEN m ELSE IF m.err THEN Err ELSE NoTensor, op = "diagonal")
         /\ hist' = Append(hist, Record(op, <<>>, arg, e, m, ls, <<"-", "-", "-">>, op, IF op \in {"unsqueeze", "repeat"} THEN OpClass(cur.L) ELSE "none"))
-  /\ steps' = steps + 1 /\ UNCHANGED <<pat, fam, chunk>>
+  /\ steps' = steps + 1 /\ UNCHANGED <<pat, fam, chunk, geo>>
 
 \* kernel[idx] and kernel.expand_batch(shape) on the kernel alone: recorded as the tensor of parameter labels
 \* (first parameter), with the active_dims buffer appended to the shape record
@@ -609,7 +685,36 @@ KOp(op, idx, arg) ==
         /\ hist' = Append(hist, [op |-> op, cls |-> IF ADIndexed THEN "active_dims" ELSE "none", idx |-> idx, arg |-> arg, eerr |-> e.err, eshape |-> AsT(e).shape, edata |-> AsT(e).data,
                                  merr |-> m.err, mshape |-> AsT(m).shape, agree |-> SameK(e, m),
                                  br |-> <<IF m.err THEN "raise" ELSE IF m.ad = k.ad THEN "ad-kept" ELSE "ad-changed", "-", "-">>, path |-> op])
-  /\ steps' = steps + 1 /\ UNCHANGED <<pat, fam, chunk>>
+  /\ steps' = steps + 1 /\ UNCHANGED <<pat, fam, chunk, geo>>
+
+\* the relations that need more than the lazy tensor kernel(x1, x2) itself (family "geo"):
+\*   diag11     kernel(x1, x1).diagonal() / kernel(x1, x1, diag=True)        = the diagonal of dense kernel(x1, x1)
+\*   diagstack  the same on xs = cat(x1, x2) (every row of the geometry on one diagonal)
+\*   stack      kernel(xs, xs)[..., :N1*T, N1*T:]                            = dense kernel(x1, x2)
+StackX(L) == LET bd == BC2(BatchOf(L.x1.shape), BatchOf(L.x2.shape))
+             IN TCatRows(TExpandTo(L.x1, bd \o <<N1, 1>>), TExpandTo(L.x2, bd \o <<N2, 1>>))
+StackL(L) == LET xs == StackX(L) IN MkLazy(xs, xs, L.k)
+StackBlock == <<EllI, Sl(0, N1 * T, NoneI), Sl(N1 * T, NoneI, NoneI)>>
+Rel(op) ==
+  /\ steps = 0 /\ MaxSteps >= 1
+  /\ LET L == cur.L
+         L11 == MkLazy(L.x1, L.x1, L.k)
+         LS == StackL(L)
+         r == IF op = "stack" THEN LOGetItem(LS, StackBlock) ELSE [L |-> LErr, den |-> Err, isden |-> TRUE, br |-> <<"-", "-", "-">>, path |-> op]
+         e == CASE op = "diag11"    -> TDiagLast(Dense(L11))
+                [] op = "diagstack" -> TDiagLast(Dense(LS))
+                [] op = "stack"     -> d0
+         m == CASE op = "diag11"    -> LKDiagonal(L11)
+                [] op = "diagstack" -> LKDiagonal(LS)
+                [] op = "stack"     -> IF r.isden THEN r.den ELSE Dense(r.L)
+         ls == IF op = "stack" /\ ~r.isden /\ ~m.err THEN LKSize(r.L) ELSE m.shape
+     IN /\ cur' = Obj(LErr, m, TRUE)
+        /\ hist' = Append(hist, Record(op, <<>>, <<>>, e, m, ls, r.br, op, "none"))
+  /\ steps' = steps + 1 /\ UNCHANGED <<pat, fam, chunk, geo>>
+
+\* index expressions of the geometry family: the whole tensor (lazy = eager), row / column slices without an explicit stop on
+\* the other axis, the first row, one entry
+GeoIdx == {<<EllI>>, <<EllI, Sl(0, T, NoneI), Full>>, <<EllI, Full, Sl(T, NoneI, NoneI)>>, <<EllI, IntI(0), Full>>, <<EllI, IntI(0), IntI(1)>>}
 
 ShapeNow == IF cur.isden THEN cur.den.shape ELSE LKSize(cur.L)
 
@@ -625,6 +730,10 @@ Next ==
            \/ Op("diagonal", <<>>)
            \/ \E d \in UnsqArgs(nd) : Op("unsqueeze", <<d>>)
            \/ \E reps \in RepeatArgs(nd) : Op("repeat", reps)
+  \/ /\ fam = "geo" /\ chunk = 0
+     /\ \/ Op("transpose", <<>>)
+        \/ \E o \in {"diag11", "diagstack", "stack"} : Rel(o)
+        \/ (steps = 0 /\ \E idx \in GeoIdx : Index(idx))
   \/ /\ fam = "kern" /\ chunk = 0
      /\ \/ \E idx \in KIdx(pat[1]) : KOp("kgetitem", idx, <<>>)
         \/ \E s \in KShapes(pat[1]) : KOp("kexpand", <<>>, s)
@@ -643,4 +752,16 @@ FastIsTIndex == \A i \in DOMAIN hist : hist[i].op = "getitem" /\ i = 1 => SameT(
 
 \* _size announces the shape of the dense value for every broadcast pattern
 SizeIsDenseShape == steps = 0 => (~d0.err /\ LKSize(cur.L) = d0.shape)
+
+\* ---- the data lattice is covered, and the block relation is a fact of the label algebra -----------------------------------
+\* the geometries of a "geo" run have the sizes of the run and exhibit every special class in x1 and in x2, coincident rows in
+\* both inputs, rows shared by x1 and x2, and an x2 that ends with the rows of x1
+GeoCover == ("geo" \in {j[2] : j \in Jobs}) =>
+              /\ \A g \in Geos : Len(g[1]) = N1 /\ Len(g[2]) = N2 /\ \A i \in DOMAIN g[1] : g[1][i] \in PointIds
+              /\ \A g \in Geos : \A j \in DOMAIN g[2] : g[2][j] \in PointIds
+              /\ RequiredFeatures \subseteq UNION {GeoFeatures(g) : g \in Geos}
+\* on the geometry family the transcribed code has no deviation at all (none of the relations falls into a class of StepClass / OpClass)
+GeoAgree == fam = "geo" => Agree
+\* declaratively: the upper right block of kernel(xs, xs), xs = cat(x1, x2), is kernel(x1, x2)
+StackIsBlock == (fam = "geo" /\ steps = 0) => SameT(TIndex(Dense(StackL(cur.L)), StackBlock), d0)
 =============================================================================
